@@ -16,7 +16,8 @@ JSON (examples/json/json.pest, tests/grammars/json.pest; interp / opt / gen / op
           trees the implementation returns: exact, with spans), and the L0 specification of
           pest run on the *regenerated* grammar terms (`J accepts`, `J prefixes`): executable
           instances of the theorems `json_accepts_both` (proved for all documents in
-          Props/C17.lean) and `json_rejects_prefix` (OPEN)
+          Props/C17.lean) and `json_rejects_prefix` (both proved for all documents in
+          Props/C17.lean; the driver requests keep the compiled model and the theorems' reading in step)
 Calculator (examples/calculator: prec_climber.py, pratt.py, grammar_encoded_prec.py)
   impl    the three implementations, imported from a scratch copy of the package whose
           generated parser modules are rebuilt from the current grammars and generator,
@@ -99,6 +100,24 @@ THEOREMS = [
     "Pest.C17.json_accepts_both",
     "Pest.Json.tval_ok",
     "Pest.Json.parse_tjson_doc",
+    # ---- JSON, stage 4 (prefix rejection), both grammars
+    "Pest.C17.json_rejects_prefix",
+    "Pest.Json.ex_parse_prefix_fail",
+    "Pest.Json.t_parse_prefix_fail",
+    "Pest.Json.val_trunc",
+    "Pest.Json.chain_fail",
+    "Pest.Json.rep_trunc",
+    "Pest.Json.num_trunc",
+    "Pest.Json.ex_string_trunc",
+    "Pest.Json.t_string_trunc",
+    # ---- the four execution modes (models L1 / LG, plain and optimized tables) via C01 C02 C03 C07
+    "Pest.C17.hyps_plain",
+    "Pest.C17.hyps_opt",
+    "Pest.C17.models_of_spec_ok",
+    "Pest.C17.models_of_spec_fail",
+    "Pest.C17.spec_to_opt",
+    "Pest.C17.json_modes_accept",
+    "Pest.C17.json_modes_reject_prefix",
 ]
 
 MODES = ("interp", "opt", "gen", "optgen")
@@ -1707,8 +1726,9 @@ def run(out: Outcome) -> None:  # noqa: PLR0912, PLR0915
         "lean_driver": _driver_mode() if lean_ok else "unavailable",
         "json_theorems_proved": ["json_number_accepts", "json_string_accepts", "json_number_accepts_tests",
                                  "json_string_accepts_tests", "json_value_accepts", "json_value_accepts_tests",
-                                 "json_accepts", "json_accepts_tests", "json_accepts_both"],
-        "json_theorems_open": ["json_rejects_prefix (both grammars)"],
+                                 "json_accepts", "json_accepts_tests", "json_accepts_both", "json_rejects_prefix",
+                                 "json_modes_accept", "json_modes_reject_prefix"],
+        "json_theorems_open": [],
         "phases_s": {"export": round(t_export, 1), "build_and_audit": round(t_proof, 1), "search": round(t_search, 1),
                      "correspondence_and_verdict": round(time.time() - t0 - t_export - t_proof - t_search, 1)},
     }
@@ -1731,13 +1751,16 @@ def run(out: Outcome) -> None:  # noqa: PLR0912, PLR0915
         "accept raw control characters U+0000–U+001F inside strings, examples/json/json.pest accepts a fraction without "
         "digits (`1.`), tests/grammars/json.pest accepts a scalar at top level (its `json` rule is SOI ~ value ~ EOI); every "
         "other text that is not RFC 8259 must be rejected in all modes",
-        "JSON: proved in Lean (all documents, unbounded), against the L0 specification of pest run on the regenerated "
-        "grammar terms of both bundled grammars: every RFC 8259 number and string, in any spelling, is exactly one token "
-        "with the expected pair(s) (stage 1), every value (stage 2) and every document whose top level is a container "
-        "(stage 3: json_accepts, json_accepts_tests, json_accepts_both) is accepted with exactly the tree `mirror`.  "
-        "OPEN: prefix rejection (json_rejects_prefix).  That, and the step from the specification to the four execution "
-        "modes of the implementation (the content of properties C01-C04), rest on the failing-input search and on the "
-        "executable specification (`J accepts`, `J prefixes`); hence level `other`",
+        "JSON: proved in Lean (all documents and prefixes, unbounded), about the regenerated grammar terms of both "
+        "bundled grammars: every document whose top level is a container is accepted with exactly the tree `mirror` "
+        "(json_accepts_both) and every proper prefix of it, written without trailing whitespace, is rejected "
+        "(json_rejects_prefix) under the L0 specification of pest; and the same for the Lean models of the four "
+        "execution modes (json_modes_accept, json_modes_reject_prefix: interpreter L1 and generated code LG, on the "
+        "regenerated table and on its optimized version), by C03, C01/C07 and C02, whose decidable hypotheses are "
+        "evaluated for both tables.  Outside the theorems: L1/LG/Opt are models, tied to the real code by correspondence "
+        "runs (C01-C04; here: the real parsers in the four modes against `mirror` on generated documents and all their "
+        "prefixes); `mirrors json.loads` beyond the spans (float(token), decoding of escapes) and the reading of RFC 8259 "
+        "as `Doc`/`render` are checked against Python's json module on every generated document, not proved",
         "Python's recursion limit is not modelled (documents nest at most 5–6 deep, expressions at most a few dozen)",
     ]
 
